@@ -26,7 +26,7 @@ FLOOR = {"quick": 300, "thorough": 5000}
 TIMEOUT = {"quick": 1500, "thorough": 5 * 3600}
 
 RULES = ["reemit_Neg", "reemit_Abs", "reemit_Relu", "reemit_Tanh", "swap_Add", "swap_Mul", "neg_abs", "neg_abs_fn", "neg_and_abs", "transpose3",
-         "abs_plus_zero_init", "reemit_Neg_keep", "neg_abs_keep", "identity_identity"]
+         "abs_plus_zero_init", "reemit_Neg_keep", "neg_abs_keep", "identity_identity", "mul_sub", "mul_sub_fn", "mul_sub", "mul_sub_fn", "neg_abs", "neg_abs_fn"]
 
 
 def make_rule(name):
@@ -53,6 +53,10 @@ def make_rule(name):
         return pattern.RewriteRule(lambda op, x: op.Neg(op.Abs(x)), lambda op, x: op.Neg(op.Abs(x)), **kw)
     if name == "neg_abs_fn":
         return pattern.RewriteRule(lambda op, x: op.Neg(op.Abs(x)), lambda op, x: op.NegAbs(x, _domain="verif.fn"), as_function=True, **kw)
+    if name == "mul_sub":  # three pattern variables (may be bound to the same value), two nodes
+        return pattern.RewriteRule(lambda op, x, y, z: op.Sub(op.Mul(x, y), z), lambda op, x, y, z: op.Sub(op.Mul(y, x), z), **kw)
+    if name == "mul_sub_fn":
+        return pattern.RewriteRule(lambda op, x, y, z: op.Sub(op.Mul(x, y), z), lambda op, x, y, z: op.MulSub(x, y, z, _domain="verif.fn"), as_function=True, **kw)
     if name == "neg_and_abs":
         return pattern.RewriteRule(lambda op, x: (op.Neg(x), op.Abs(x)), lambda op, x: (op.Neg(x), op.Abs(x)), **kw)
     if name == "transpose3":
@@ -83,7 +87,7 @@ def touched_ops(rule):
     base = rule[:-5] if rule.endswith("_keep") else rule
     if base.startswith(("reemit_", "swap_")):
         return {base.split("_")[1]}
-    return {"neg_abs": {"Neg", "Abs"}, "neg_abs_fn": {"Neg", "Abs", "NegAbs"}, "neg_and_abs": {"Neg", "Abs"}, "transpose3": {"Transpose"},
+    return {"mul_sub": {"Mul", "Sub"}, "mul_sub_fn": {"Mul", "Sub", "MulSub"}, "neg_abs": {"Neg", "Abs"}, "neg_abs_fn": {"Neg", "Abs", "NegAbs"}, "neg_and_abs": {"Neg", "Abs"}, "transpose3": {"Transpose"},
             "abs_plus_zero_init": {"Abs", "Add"}, "identity_identity": {"Identity"}}[base]
 
 
@@ -138,8 +142,8 @@ def instance_exists(model, rule):
                     return where
         elif base == "abs_plus_zero_init":
             pass  # needs the dtype of x: no completeness claim for this rule
-        elif base in ("neg_abs", "neg_abs_fn", "identity_identity"):
-            inner, outer = ("Abs", "Neg") if base != "identity_identity" else ("Identity", "Identity")
+        elif base in ("neg_abs", "neg_abs_fn", "identity_identity", "mul_sub", "mul_sub_fn"):
+            inner, outer = ("Mul", "Sub") if base.startswith("mul_sub") else ("Abs", "Neg") if base != "identity_identity" else ("Identity", "Identity")
             prod = {n.output[0]: n for n in std if n.op_type == inner}
             for n in std:
                 if n.op_type == outer and n.input and n.input[0] in prod and prod[n.input[0]] is not n:
@@ -257,8 +261,20 @@ def _plant(g):
     v = g.pick_val(lambda v: v.dtype in (modelgen.F32, modelgen.F64, modelgen.I64))
     if v is None:
         return
-    k = g.pick(["neg_abs", "neg_and_abs", "add", "mul", "transpose", "idid", "chain"])
+    k = g.pick(["neg_abs", "neg_and_abs", "add", "mul", "transpose", "idid", "chain", "mul_sub", "mul_sub", "in_body", "in_body", "in_body"])
     g.features.add("planted:c07:" + k)
+    if k == "mul_sub":
+        w, u = g._second(v), g._second(v)
+        ops = g.pick([(v, w, u), (v, v, u), (v, w, v), (v, w, w), (v, v, v)])  # pattern variables bound to the same value
+        if len({id(o) for o in ops}) < 3:
+            g.features.add("planted:c07:mul_sub_repeated_operand")
+        m = g.emit("Mul", [ops[0], ops[1]])
+        if m:
+            r = g.emit("Sub", [m[0], ops[2]])
+            return r
+        return
+    if k == "in_body":
+        return _plant_in_body(g, v)
     if k == "neg_abs":
         a = g.emit("Abs", [v])
         if a:
@@ -290,6 +306,60 @@ def _plant(g):
             if not r:
                 break
             cur = r[0]
+
+
+def _plant_in_body(g, v):
+    """A two-node instance inside an If branch (both nodes in the body), or straddling the boundary (producer in the enclosing graph,
+    consumed only inside the body)."""
+    from onnx import helper
+
+    if g.depth or v.dtype == modelgen.I64 and False:
+        return None
+    how = g.pick(["both_inside", "both_inside", "straddle", "inside_and_outside"])
+    pair = g.pick([("Abs", "Neg"), ("Mul", "Sub")])
+    g.features.add(f"planted:c07:in_body:{how}:{pair[0]}")
+    parent_vis = g.outer + [x for x in g.env if isinstance(x.arr, np.ndarray)]
+
+    def subgen():
+        sg = modelgen.Gen(g.draw, dict(g.cfg, outer=parent_vis, counter=g.counter, used_names=g.used_names, depth=g.depth + 1, opset=g.opset, overridable=False))
+        sg.functions = g.functions
+        return sg
+
+    def first(gen):
+        return gen.emit("Abs", [v]) if pair[0] == "Abs" else gen.emit("Mul", [v, g._second(v)])
+
+    def second(gen, a):
+        return gen.emit("Neg", [a]) if pair[1] == "Neg" else gen.emit("Sub", [a, g.pick([v, g._second(v)])])
+
+    outer_first = first(g) if how in ("straddle", "inside_and_outside") else None
+    if how != "both_inside" and not outer_first:
+        return None
+    parent_vis = g.outer + [x for x in g.env if isinstance(x.arr, np.ndarray)]
+    tb = subgen()
+    a = outer_first or first(tb)
+    if not a:
+        return None
+    r = second(tb, a[0])
+    if not r:
+        return None
+    if how == "inside_and_outside":
+        g.emit("Neg" if v.dtype != modelgen.BOOL else "Not", [outer_first[0]])  # the producer has a second consumer outside
+    eb = subgen()
+    e = eb.emit("Identity", [v])
+    if not e or e[0].dtype != r[0].dtype or e[0].shape != r[0].shape:
+        return None
+    gt = helper.make_graph(tb.nodes, g.fresh("branch"), [], [modelgen._value_info(r[0].name, r[0].arr, unknown=True)], initializer=tb.inits)
+    ge = helper.make_graph(eb.nodes, g.fresh("branch"), [], [modelgen._value_info(e[0].name, e[0].arr, unknown=True)], initializer=eb.inits)
+    if g.chance(5):
+        cond = g.const_array(np.asarray(g.pick([True, False])), how="node")
+    else:
+        s_ = g.emit("ReduceSum", [v], keepdims=0) if g.opset >= 13 else None
+        c = g.emit("Greater", [s_[0], g.const_array(np.asarray(0, dtype=s_[0].dtype))]) if s_ else None
+        if not c or c[0].shape != ():
+            return None
+        cond = c[0]
+    parent_vis = g.outer + [x for x in g.env if isinstance(x.arr, np.ndarray)]
+    return g.emit("If", [cond], n_out=1, subgraph_free=parent_vis, then_branch=gt, else_branch=ge)
 
 
 CFG = {"overridable": False, "zero_dims": False, "value_info": True, "max_nodes": 10, "extra_generators": [_plant], "extra_weight": 5,
